@@ -16,6 +16,7 @@ structure St where
   blockKV : List (String × String) := []   -- keys present in the current block state
   txnKV   : Option (List (String × String)) := none
   cc      : Collector := {}
+  kvs     : List (Nat × List (String × String)) := []  -- key sets of the finalized blocks (for roll-backs)
 
 def parseSet (tag : String) (s : String) : Option (List Hash) :=
   if s.startsWith (tag ++ ":") then
@@ -38,7 +39,7 @@ def step (s : St) (ws : List String) : St × String :=
   match ws with
   | ["hist", _, r0] =>
     match r0.toNat? with
-    | some r => ({ started := true, db := { lfb := r } }, "ok")
+    | some r => ({ started := true, db := { lfb := r, blocks := [(r, [])] }, kvs := [(r, [])] }, "ok")
     | none => (s, "bad-op")
   | ["b", r] =>
     match r.toNat?, s.inBlock with
@@ -66,9 +67,18 @@ def step (s : St) (ws : List String) : St × String :=
   | ["fin", n, d, t] =>
     match s.inBlock, s.txnKV, parseSet "N" n, parseSet "D" d, parseSet "T" t with
     | some r, none, some ns, some ds, some ts =>
-      ({ s with db := s.db.finalize { round := r, new := ns, dead := ds, nodes := ts }, inBlock := none },
+      ({ s with db := s.db.finalize { round := r, new := ns, dead := ds, nodes := ts }, inBlock := none,
+                kvs := (r, s.blockKV) :: s.kvs.filter (fun e => e.1 != r) },
        s!"fin N:{showSet ns} D:{showSet ds} T:{showSet ts}")
     | _, _, _, _, _ => (s, "bad-op")
+  | ["rb", r] =>
+    match r.toNat? with
+    | some r =>
+      if !s.started || s.inBlock.isSome || r ≥ s.db.lfb then (s, "bad-op") else
+      match s.kvs.find? (fun e => e.1 == r) with
+      | none => (s, "bad-op")
+      | some e => ({ s with db := s.db.rollback r, blockKV := e.2, kvs := s.kvs.filter (fun x => x.1 ≤ r) }, "ok")
+    | none => (s, "bad-op")
   | ["prune", c] =>
     match c.toNat? with
     | some c =>
